@@ -51,6 +51,8 @@ func cmdC14(seed uint64, tier, outdir string) {
 		seenText[txt] = true
 		vals = append(vals, kv{fmt.Sprintf("v%02d", len(vals)), txt})
 	}
+	// a blank license file: its normalised text is not empty but has no token
+	vals = append(vals, kv{"vblank", " \n\n "}, kv{"vnl", "\n"})
 	var queries []string
 	for i := 0; i < nQ; i++ {
 		a, b := vals[r.intn(len(vals))].v, vals[r.intn(len(vals))].v
